@@ -212,9 +212,6 @@ Fixpoint sem (e : mexpr) : res ast :=
   | MParen e => sem e
   end.
 
-Definition hd_hash (ts : list token) : bool :=
-  match ts with t :: _ => match t with THashN _ | THashP => true | _ => false end | [] => false end.
-
 Lemma toks_nonempty lvl e : toks lvl e <> [].
 Proof.
   revert lvl. induction e as [z sub|a IHa b IHb|a IHa b IHb|e IHe|n|p IHp]; intros lvl; cbn [toks]; try discriminate.
@@ -224,16 +221,6 @@ Proof.
     specialize (IHa 0). destruct (toks 0 a); [congruence|discriminate].
 Qed.
 
-Lemma hd_hash_app ts r : ts <> [] -> hd_hash (ts ++ r) = hd_hash ts.
-Proof. destruct ts; [congruence|reflexivity]. Qed.
-
-Lemma toks1_hd e : hd_hash (toks 1 e) = starts_hash e.
-Proof.
-  induction e as [z sub|a IHa b IHb|a IHa b IHb|e IHe|n|p IHp]; cbn [toks starts_hash paren Nat.ltb Nat.leb]; try reflexivity.
-  rewrite hd_hash_app by apply toks_nonempty.
-  destruct a; exact IHa.
-Qed.
-
 Lemma toks_level_1_2 e : (forall a b, e <> MAnd a b) -> toks 1 e = toks 2 e.
 Proof. destruct e; intros H; try reflexivity. exfalso. eapply H. reflexivity. Qed.
 
@@ -241,103 +228,6 @@ Lemma toks_level_0_1 e : (forall a b, e <> MOr a b) -> toks 0 e = toks 1 e.
 Proof. destruct e; intros H; try reflexivity. exfalso. eapply H. reflexivity. Qed.
 
 Definition closed_as (fr : frame) (v : ast) : Prop := close_frame fr = Some v.
-
-Lemma run_toks e : forall v, sem e = Ok v -> no_colon_hash e = true ->
-  (forall r cur stk, (fc cur = true -> hd_hash (toks 2 e) = false) ->
-     run (toks 2 e ++ r) cur stk = run r (push_operand v cur) stk) /\
-  (forall r cur stk, fi cur = None -> (fc cur = true -> hd_hash (toks 1 e) = false) ->
-     run (toks 1 e ++ r) cur stk = run r (push_operand v cur) stk) /\
-  (forall r cur stk, fi cur = None -> fu cur = None -> fc cur = false ->
-     exists u i, run (toks 0 e ++ r) cur stk = run r (mkFrame (fk cur) u (Some i) false) stk /\
-                 closed_as (mkFrame (fk cur) u (Some i) false) v).
-Proof.
-  induction e as [z sub|a IHa b IHb|a IHa b IHb|e IHe|n|p IHp]; intros v Hsem Hg.
-  - (* literal *)
-    cbn in Hsem. injection Hsem as <-. split; [|split].
-    + intros r cur stk _. reflexivity.
-    + intros r cur stk _ _. reflexivity.
-    + intros r cur stk Hi Hu Hc. exists None, (ASurf z sub). cbn [toks app run].
-      unfold push_operand. rewrite Hi, Hu. split; reflexivity.
-  - (* intersection *)
-    cbn [sem] in Hsem. destruct (sem a) as [va|] eqn:Ea; [|discriminate].
-    destruct (sem b) as [vb|] eqn:Eb; [|discriminate]. injection Hsem as <-.
-    cbn [no_colon_hash] in Hg. apply andb_prop in Hg. destruct Hg as [Ga Gb].
-    destruct (IHa va eq_refl Ga) as (_ & A1 & _). destruct (IHb vb eq_refl Gb) as (B2 & _ & _).
-    assert (L1 : forall r cur stk, fi cur = None -> (fc cur = true -> hd_hash (toks 1 (MAnd a b)) = false) ->
-               run (toks 1 (MAnd a b) ++ r) cur stk = run r (push_operand (AAnd va vb) cur) stk).
-    { intros r cur stk Hi Hh. cbn [toks paren Nat.ltb Nat.leb]. rewrite <- app_assoc.
-      rewrite A1; auto.
-      - rewrite B2 by (cbn; discriminate). unfold push_operand. cbn. now rewrite Hi.
-      - intros Hc. specialize (Hh Hc). cbn [toks paren Nat.ltb Nat.leb] in Hh.
-        now rewrite hd_hash_app in Hh by apply toks_nonempty. }
-    assert (L2 : forall r cur stk, run (toks 2 (MAnd a b) ++ r) cur stk = run r (push_operand (AAnd va vb) cur) stk).
-    { intros r cur stk. cbn [toks paren Nat.ltb Nat.leb]. cbn [app run].
-      rewrite <- app_assoc. rewrite <- app_assoc. fold (toks 1 (MAnd a b)).
-      change (toks 1 a ++ toks 2 b ++ [TRP] ++ r) with (toks 1 a ++ toks 2 b ++ TRP :: r).
-      rewrite app_assoc. change (toks 1 a ++ toks 2 b) with (toks 1 (MAnd a b)).
-      rewrite L1 by (cbn; auto; discriminate). cbn. reflexivity. }
-    split; [|split].
-    + intros r cur stk _. apply L2.
-    + exact L1.
-    + intros r cur stk Hi Hu Hc. exists None, (AAnd va vb). rewrite toks_level_0_1 by discriminate.
-      rewrite L1 by (auto; rewrite Hc; discriminate). unfold push_operand. rewrite Hi, Hu. split; reflexivity.
-  - (* union *)
-    cbn [sem] in Hsem. destruct (sem a) as [va|] eqn:Ea; [|discriminate].
-    destruct (sem b) as [vb|] eqn:Eb; [|discriminate]. injection Hsem as <-.
-    cbn [no_colon_hash] in Hg. apply andb_prop in Hg. destruct Hg as [Hg Gh].
-    apply andb_prop in Hg. destruct Hg as [Ga Gb]. apply negb_true_iff in Gh.
-    destruct (IHa va eq_refl Ga) as (_ & _ & A0). destruct (IHb vb eq_refl Gb) as (_ & B1 & _).
-    assert (L0 : forall r cur stk, fi cur = None -> fu cur = None -> fc cur = false ->
-               exists u i, run (toks 0 (MOr a b) ++ r) cur stk = run r (mkFrame (fk cur) u (Some i) false) stk /\
-                           closed_as (mkFrame (fk cur) u (Some i) false) (AOr va vb)).
-    { intros r cur stk Hi Hu Hc. cbn [toks paren Nat.ltb Nat.leb]. rewrite <- app_assoc.
-      destruct (A0 (TColon :: toks 1 b ++ r) cur stk Hi Hu Hc) as (u & i & Erun & Hcl).
-      exists (Some va), vb. cbn [app]. rewrite Erun. cbn [run]. unfold closed_as in Hcl. rewrite Hcl.
-      rewrite B1; [|reflexivity|intros _; now rewrite toks1_hd]. split; reflexivity. }
-    assert (L2 : forall r cur stk, run (toks 2 (MOr a b) ++ r) cur stk = run r (push_operand (AOr va vb) cur) stk).
-    { intros r cur stk. cbn [toks paren Nat.ltb Nat.leb]. cbn [app run]. rewrite <- app_assoc.
-      change (toks 0 a ++ TColon :: toks 1 b) with (toks 0 (MOr a b)).
-      destruct (L0 ([TRP] ++ r) (new_frame KParen) (cur :: stk) eq_refl eq_refl eq_refl) as (u & i & Erun & Hcl).
-      rewrite Erun. cbn [app run fk]. unfold closed_as in Hcl. rewrite Hcl. reflexivity. }
-    split; [|split].
-    + intros r cur stk _. apply L2.
-    + intros r cur stk _ _. change (toks 1 (MOr a b)) with (toks 2 (MOr a b)). apply L2.
-    + exact L0.
-  - (* #( e ) *)
-    cbn [sem] in Hsem. destruct (sem e) as [ve|] eqn:Ee; [|discriminate].
-    cbn [no_colon_hash] in Hg. destruct (IHe ve eq_refl Hg) as (_ & _ & E0).
-    assert (L2 : forall r cur stk, fc cur = false ->
-               run (toks 2 (MNot e) ++ r) cur stk = run r (push_operand v cur) stk).
-    { intros r cur stk Hc. cbn [toks app run]. rewrite Hc. rewrite <- app_assoc.
-      destruct (E0 ([TRP] ++ r) (new_frame KHash) (cur :: stk) eq_refl eq_refl eq_refl) as (u & i & Erun & Hcl).
-      rewrite Erun. cbn [app run fk]. unfold closed_as in Hcl. rewrite Hcl, Hsem. reflexivity. }
-    split; [|split].
-    + intros r cur stk Hh. apply L2. destruct (fc cur); [|reflexivity]. specialize (Hh eq_refl). discriminate.
-    + intros r cur stk _ Hh. apply L2. destruct (fc cur); [|reflexivity]. specialize (Hh eq_refl). discriminate.
-    + intros r cur stk Hi Hu Hc. exists None, v. change (toks 0 (MNot e)) with (toks 2 (MNot e)).
-      rewrite L2 by exact Hc. unfold push_operand. rewrite Hi, Hu. split; reflexivity.
-  - (* #n *)
-    cbn in Hsem. injection Hsem as <-.
-    assert (L2 : forall r cur stk, fc cur = false ->
-               run (toks 2 (MNotCell n) ++ r) cur stk = run r (push_operand (ACompl n) cur) stk).
-    { intros r cur stk Hc. cbn [toks app run]. now rewrite Hc. }
-    split; [|split].
-    + intros r cur stk Hh. apply L2. destruct (fc cur); [|reflexivity]. specialize (Hh eq_refl). discriminate.
-    + intros r cur stk _ Hh. apply L2. destruct (fc cur); [|reflexivity]. specialize (Hh eq_refl). discriminate.
-    + intros r cur stk Hi Hu Hc. exists None, (ACompl n). change (toks 0 (MNotCell n)) with (toks 2 (MNotCell n)).
-      rewrite L2 by exact Hc. unfold push_operand. rewrite Hi, Hu. split; reflexivity.
-  - (* ( e ) *)
-    cbn [sem] in Hsem. cbn [no_colon_hash] in Hg. destruct (IHp v Hsem Hg) as (_ & _ & E0).
-    assert (L2 : forall r cur stk, run (toks 2 (MParen p) ++ r) cur stk = run r (push_operand v cur) stk).
-    { intros r cur stk. cbn [toks app run]. rewrite <- app_assoc.
-      destruct (E0 ([TRP] ++ r) (new_frame KParen) (cur :: stk) eq_refl eq_refl eq_refl) as (u & i & Erun & Hcl).
-      rewrite Erun. cbn [app run fk]. unfold closed_as in Hcl. rewrite Hcl. reflexivity. }
-    split; [|split].
-    + intros r cur stk _. apply L2.
-    + intros r cur stk _ _. change (toks 1 (MParen p)) with (toks 2 (MParen p)). apply L2.
-    + intros r cur stk Hi Hu Hc. exists None, v. change (toks 0 (MParen p)) with (toks 2 (MParen p)).
-      rewrite L2. unfold push_operand. rewrite Hi, Hu. split; reflexivity.
-Qed.
 
 (* sem is defined on every expression without #n below #( ), and denotes mden *)
 Lemma sem_cell_free e : cell_free e = true -> nonzero e = true ->
@@ -379,46 +269,174 @@ Proof.
   - destruct (IHp Hc Hn) as (v & Ev & Dv). exists v. cbn [sem mden]. auto.
 Qed.
 
+(* ================================================================== *)
+(* 4. The parser on the canonical tokens of ANY expression             *)
+(* ================================================================== *)
+(* [psem e] is what parsing the tokens of [e] gives, errors included, in the
+   order in which the parser meets them (it is GeomSemantics on the abstract
+   expression: [psem_eq_sem]) *)
+Definition bind (x : res ast) (k : ast -> res ast) : res ast :=
+  match x with Ok v => k v | Err e => Err e end.
+
+Fixpoint psem (e : mexpr) : res ast :=
+  match e with
+  | MLit z sub => Ok (ASurf z sub)
+  | MNotCell n => Ok (ACompl n)
+  | MAnd a b => bind (psem a) (fun a' => bind (psem b) (fun b' => Ok (AAnd a' b')))
+  | MOr a b => bind (psem a) (fun a' => bind (psem b) (fun b' => Ok (AOr a' b')))
+  | MNot e => bind (psem e) inverse
+  | MParen e => psem e
+  end.
+
+Lemma psem_eq_sem e : psem e = sem e.
+Proof.
+  induction e as [z sub|a IHa b IHb|a IHa b IHb|e IHe|n|p IHp]; cbn [psem sem]; reflexivity.
+Qed.
+
+Lemma run_toks_full e :
+  (forall r cur stk,
+     run (toks 2 e ++ r) cur stk = bind (psem e) (fun v => run r (push_operand v cur) stk)) /\
+  (forall r cur stk, fi cur = None ->
+     run (toks 1 e ++ r) cur stk = bind (psem e) (fun v => run r (push_operand v cur) stk)) /\
+  (forall r cur stk, fi cur = None -> fu cur = None ->
+     exists u i, run (toks 0 e ++ r) cur stk =
+                 bind (psem e) (fun _ => run r (mkFrame (fk cur) u (Some i)) stk) /\
+                 forall v, psem e = Ok v -> closed_as (mkFrame (fk cur) u (Some i)) v).
+Proof.
+  induction e as [z sub|a IHa b IHb|a IHa b IHb|e IHe|n|p IHp].
+  - (* literal *)
+    split; [|split].
+    + intros r cur stk. reflexivity.
+    + intros r cur stk _. reflexivity.
+    + intros r cur stk Hi Hu. exists None, (ASurf z sub). cbn [toks app run psem bind].
+      unfold push_operand. rewrite Hi, Hu. split; [reflexivity|]. intros v Hv. now injection Hv as <-.
+  - (* intersection *)
+    destruct IHa as (_ & A1 & _). destruct IHb as (B2 & _ & _).
+    assert (L1 : forall r cur stk, fi cur = None ->
+               run (toks 1 (MAnd a b) ++ r) cur stk =
+               bind (psem (MAnd a b)) (fun v => run r (push_operand v cur) stk)).
+    { intros r cur stk Hi. cbn [toks paren Nat.ltb Nat.leb psem]. rewrite <- app_assoc.
+      rewrite A1 by exact Hi.
+      destruct (psem a) as [va|x]; cbn [bind]; [|reflexivity].
+      rewrite B2.
+      destruct (psem b) as [vb|x]; cbn [bind]; [|reflexivity].
+      unfold push_operand. cbn. now rewrite Hi. }
+    assert (L2 : forall r cur stk, run (toks 2 (MAnd a b) ++ r) cur stk =
+                                   bind (psem (MAnd a b)) (fun v => run r (push_operand v cur) stk)).
+    { intros r cur stk. cbn [toks paren Nat.ltb Nat.leb]. cbn [app run].
+      rewrite <- app_assoc. rewrite <- app_assoc. fold (toks 1 (MAnd a b)).
+      change (toks 1 a ++ toks 2 b ++ [TRP] ++ r) with (toks 1 a ++ toks 2 b ++ TRP :: r).
+      rewrite app_assoc. change (toks 1 a ++ toks 2 b) with (toks 1 (MAnd a b)).
+      rewrite L1 by reflexivity.
+      destruct (psem (MAnd a b)) as [v|x]; cbn [bind]; reflexivity. }
+    split; [|split].
+    + exact L2.
+    + exact L1.
+    + intros r cur stk Hi Hu. rewrite toks_level_0_1 by discriminate.
+      rewrite L1 by exact Hi.
+      destruct (psem (MAnd a b)) as [v|x] eqn:Ep; cbn [bind].
+      * exists None, v. unfold push_operand. rewrite Hi, Hu. split; [reflexivity|].
+        intros v' Hv'. now injection Hv' as <-.
+      * exists None, (ASurf 0 None). split; [reflexivity|]. discriminate.
+  - (* union *)
+    destruct IHa as (_ & _ & A0). destruct IHb as (_ & B1 & _).
+    assert (L0 : forall r cur stk, fi cur = None -> fu cur = None ->
+               exists u i, run (toks 0 (MOr a b) ++ r) cur stk =
+                           bind (psem (MOr a b)) (fun _ => run r (mkFrame (fk cur) u (Some i)) stk) /\
+                           forall v, psem (MOr a b) = Ok v -> closed_as (mkFrame (fk cur) u (Some i)) v).
+    { intros r cur stk Hi Hu. cbn [toks paren Nat.ltb Nat.leb psem]. rewrite <- app_assoc.
+      destruct (A0 (TColon :: toks 1 b ++ r) cur stk Hi Hu) as (u & i & Erun & Hcl).
+      cbn [app]. rewrite Erun.
+      destruct (psem a) as [va|x]; cbn [bind].
+      - specialize (Hcl va eq_refl). cbn [run]. unfold closed_as in Hcl. rewrite Hcl.
+        rewrite B1 by reflexivity.
+        destruct (psem b) as [vb|x]; cbn [bind].
+        + exists (Some va), vb. split; [reflexivity|]. intros v Hv. now injection Hv as <-.
+        + exists None, (ASurf 0 None). split; [reflexivity|discriminate].
+      - exists None, (ASurf 0 None). split; [reflexivity|discriminate]. }
+    assert (L2 : forall r cur stk, run (toks 2 (MOr a b) ++ r) cur stk =
+                                   bind (psem (MOr a b)) (fun v => run r (push_operand v cur) stk)).
+    { intros r cur stk. cbn [toks paren Nat.ltb Nat.leb]. cbn [app run]. rewrite <- app_assoc.
+      change (toks 0 a ++ TColon :: toks 1 b) with (toks 0 (MOr a b)).
+      destruct (L0 ([TRP] ++ r) (new_frame KParen) (cur :: stk) eq_refl eq_refl) as (u & i & Erun & Hcl).
+      rewrite Erun. destruct (psem (MOr a b)) as [v|x]; cbn [bind]; [|reflexivity].
+      specialize (Hcl v eq_refl). cbn [app run fk]. unfold closed_as in Hcl. rewrite Hcl. reflexivity. }
+    split; [|split].
+    + exact L2.
+    + intros r cur stk _. change (toks 1 (MOr a b)) with (toks 2 (MOr a b)). apply L2.
+    + exact L0.
+  - (* #( e ) *)
+    destruct IHe as (_ & _ & E0).
+    assert (L2 : forall r cur stk,
+               run (toks 2 (MNot e) ++ r) cur stk =
+               bind (psem (MNot e)) (fun v => run r (push_operand v cur) stk)).
+    { intros r cur stk. cbn [toks app run psem]. rewrite <- app_assoc.
+      destruct (E0 ([TRP] ++ r) (new_frame KHash) (cur :: stk) eq_refl eq_refl) as (u & i & Erun & Hcl).
+      rewrite Erun. destruct (psem e) as [ve|x]; cbn [bind]; [|reflexivity].
+      specialize (Hcl ve eq_refl). cbn [app run fk]. unfold closed_as in Hcl. rewrite Hcl.
+      destruct (inverse ve); reflexivity. }
+    split; [|split].
+    + exact L2.
+    + intros r cur stk _. apply L2.
+    + intros r cur stk Hi Hu. change (toks 0 (MNot e)) with (toks 2 (MNot e)).
+      rewrite L2.
+      destruct (psem (MNot e)) as [v|x]; cbn [bind].
+      * exists None, v. unfold push_operand. rewrite Hi, Hu. split; [reflexivity|].
+        intros v' Hv'. now injection Hv' as <-.
+      * exists None, (ASurf 0 None). split; [reflexivity|discriminate].
+  - (* #n *)
+    split; [|split].
+    + intros r cur stk. reflexivity.
+    + intros r cur stk _. reflexivity.
+    + intros r cur stk Hi Hu. exists None, (ACompl n). cbn [toks app run psem bind].
+      unfold push_operand. rewrite Hi, Hu. split; [reflexivity|].
+      intros v Hv. now injection Hv as <-.
+  - (* ( e ) *)
+    destruct IHp as (_ & _ & E0).
+    assert (L2 : forall r cur stk, run (toks 2 (MParen p) ++ r) cur stk =
+                                   bind (psem (MParen p)) (fun v => run r (push_operand v cur) stk)).
+    { intros r cur stk. cbn [toks app run psem]. rewrite <- app_assoc.
+      destruct (E0 ([TRP] ++ r) (new_frame KParen) (cur :: stk) eq_refl eq_refl) as (u & i & Erun & Hcl).
+      rewrite Erun. destruct (psem p) as [v|x]; cbn [bind]; [|reflexivity].
+      specialize (Hcl v eq_refl). cbn [app run fk]. unfold closed_as in Hcl. rewrite Hcl. reflexivity. }
+    split; [|split].
+    + exact L2.
+    + intros r cur stk _. change (toks 1 (MParen p)) with (toks 2 (MParen p)). apply L2.
+    + intros r cur stk Hi Hu. change (toks 0 (MParen p)) with (toks 2 (MParen p)). rewrite L2.
+      destruct (psem (MParen p)) as [v|x]; cbn [bind].
+      * exists None, v. unfold push_operand. rewrite Hi, Hu. split; [reflexivity|].
+        intros v' Hv'. now injection Hv' as <-.
+      * exists None, (ASurf 0 None). split; [reflexivity|discriminate].
+Qed.
+
+(* parser o printer = psem, for EVERY expression *)
+Theorem parse_toks_psem e : parse_tokens (toks 0 e) = psem e.
+Proof.
+  destruct (run_toks_full e) as (_ & _ & L0).
+  destruct (L0 [] (new_frame KTop) [] eq_refl eq_refl) as (u & i & Erun & Hcl).
+  unfold parse_tokens. rewrite <- (app_nil_r (toks 0 e)). rewrite Erun.
+  destruct (psem e) as [v|x]; cbn [bind]; [|reflexivity].
+  specialize (Hcl v eq_refl). cbn [run fk new_frame]. unfold closed_as in Hcl. cbn [fk new_frame] in Hcl.
+  now rewrite Hcl.
+Qed.
+
+Lemma admissible_split e : admissible e = true -> no_cell_under_not e = true /\ nonzero e = true.
+Proof. unfold admissible. intros H. now apply andb_prop in H. Qed.
+
 Theorem parse_print e : admissible e = true ->
   exists a, parse_tokens (toks 0 e) = Ok a /\ sem e = Ok a.
 Proof.
-  unfold admissible. intros H. apply andb_prop in H. destruct H as [H Hn].
-  apply andb_prop in H. destruct H as [Hc Hg].
+  intros H. destruct (admissible_split e H) as [Hc Hn].
   destruct (sem_admissible e Hc Hn) as (v & Ev & _). exists v. split; [|exact Ev].
-  destruct (run_toks e v Ev Hg) as (_ & _ & L0).
-  destruct (L0 [] (new_frame KTop) [] eq_refl eq_refl eq_refl) as (u & i & Erun & Hcl).
-  unfold parse_tokens. rewrite <- (app_nil_r (toks 0 e)). rewrite Erun. cbn [run fk new_frame].
-  unfold closed_as in Hcl. cbn [fk new_frame] in Hcl. now rewrite Hcl.
+  now rewrite parse_toks_psem, psem_eq_sem.
 Qed.
 
 Theorem parse_print_den e : admissible e = true ->
   exists a, parse_tokens (toks 0 e) = Ok a /\ forall cd sg, aden cd sg a = mden cd sg e.
 Proof.
-  intros H. destruct (parse_print e H) as (a & Ep & Es). exists a. split; [exact Ep|].
-  unfold admissible in H. apply andb_prop in H. destruct H as [H Hn].
-  apply andb_prop in H. destruct H as [Hc _].
-  destruct (sem_admissible e Hc Hn) as (v & Ev & Dv). rewrite Ev in Es. injection Es as <-. exact Dv.
-Qed.
-
-(* ================================================================== *)
-(* 4. The two defect classes, as refutations of the unguarded statement *)
-(* ================================================================== *)
-(* #( -2 #1 ) : a complement of a cell below #( ... ) raises AttributeError *)
-Theorem nested_refuted :
-  exists e s, nonzero e = true /\ no_colon_hash e = true /\
-    tokens_of s = toks 0 e /\ get_ast s = Err EAttribute.
-Proof.
-  exists (MNot (MAnd (MLit (-2) None) (MNotCell 1))), "#(-2 #1)"%string.
-  repeat split; vm_compute; reflexivity.
-Qed.
-
-(* 1:#2 : a complement directly after the colon is a parse error *)
-Theorem colon_hash_refuted :
-  exists e s, nonzero e = true /\ no_cell_under_not e = true /\
-    tokens_of s = toks 0 e /\ get_ast s = Err EParse.
-Proof.
-  exists (MOr (MLit 1 None) (MNotCell 2)), "1:#2"%string.
-  repeat split; vm_compute; reflexivity.
+  intros H. destruct (admissible_split e H) as [Hc Hn].
+  destruct (sem_admissible e Hc Hn) as (v & Ev & Dv). exists v. split; [|exact Dv].
+  now rewrite parse_toks_psem, psem_eq_sem.
 Qed.
 
 Theorem parse_print_tokens e : admissible e = true ->
@@ -430,166 +448,18 @@ Proof.
 Qed.
 
 (* ================================================================== *)
-(* 5. The parser on the canonical tokens of ANY expression             *)
+(* 5. The defect class, as a refutation of the unguarded statement     *)
 (* ================================================================== *)
-(* [psem e] is what parsing the tokens of [e] gives, errors included, in the
-   order in which the parser meets them: a complement met right after ':' is
-   a parse error before anything of the right operand is read *)
-Definition bind (x : res ast) (k : ast -> res ast) : res ast :=
-  match x with Ok v => k v | Err e => Err e end.
-
-Fixpoint psem (e : mexpr) : res ast :=
-  match e with
-  | MLit z sub => Ok (ASurf z sub)
-  | MNotCell n => Ok (ACompl n)
-  | MAnd a b => bind (psem a) (fun a' => bind (psem b) (fun b' => Ok (AAnd a' b')))
-  | MOr a b => bind (psem a) (fun a' =>
-                 if starts_hash b then Err EParse
-                 else bind (psem b) (fun b' => Ok (AOr a' b')))
-  | MNot e => bind (psem e) inverse
-  | MParen e => psem e
-  end.
-
-Lemma run_toks_full e :
-  (forall r cur stk, (fc cur = true -> hd_hash (toks 2 e) = false) ->
-     run (toks 2 e ++ r) cur stk = bind (psem e) (fun v => run r (push_operand v cur) stk)) /\
-  (forall r cur stk, fi cur = None -> (fc cur = true -> hd_hash (toks 1 e) = false) ->
-     run (toks 1 e ++ r) cur stk = bind (psem e) (fun v => run r (push_operand v cur) stk)) /\
-  (forall r cur stk, fi cur = None -> fu cur = None -> fc cur = false ->
-     exists u i, run (toks 0 e ++ r) cur stk =
-                 bind (psem e) (fun _ => run r (mkFrame (fk cur) u (Some i) false) stk) /\
-                 forall v, psem e = Ok v -> closed_as (mkFrame (fk cur) u (Some i) false) v).
+(* #( -2 #1 ) : a complement of a cell below #( ... ) raises AttributeError *)
+Theorem nested_refuted :
+  exists e s, nonzero e = true /\ tokens_of s = toks 0 e /\ get_ast s = Err EAttribute.
 Proof.
-  induction e as [z sub|a IHa b IHb|a IHa b IHb|e IHe|n|p IHp].
-  - (* literal *)
-    split; [|split].
-    + intros r cur stk _. reflexivity.
-    + intros r cur stk _ _. reflexivity.
-    + intros r cur stk Hi Hu Hc. exists None, (ASurf z sub). cbn [toks app run psem bind].
-      unfold push_operand. rewrite Hi, Hu. split; [reflexivity|]. intros v Hv. now injection Hv as <-.
-  - (* intersection *)
-    destruct IHa as (_ & A1 & _). destruct IHb as (B2 & _ & _).
-    assert (L1 : forall r cur stk, fi cur = None -> (fc cur = true -> hd_hash (toks 1 (MAnd a b)) = false) ->
-               run (toks 1 (MAnd a b) ++ r) cur stk =
-               bind (psem (MAnd a b)) (fun v => run r (push_operand v cur) stk)).
-    { intros r cur stk Hi Hh. cbn [toks paren Nat.ltb Nat.leb psem]. rewrite <- app_assoc.
-      rewrite A1; auto.
-      - destruct (psem a) as [va|x]; cbn [bind]; [|reflexivity].
-        rewrite B2 by (cbn; discriminate).
-        destruct (psem b) as [vb|x]; cbn [bind]; [|reflexivity].
-        unfold push_operand. cbn. now rewrite Hi.
-      - intros Hc. specialize (Hh Hc). cbn [toks paren Nat.ltb Nat.leb] in Hh.
-        now rewrite hd_hash_app in Hh by apply toks_nonempty. }
-    assert (L2 : forall r cur stk, run (toks 2 (MAnd a b) ++ r) cur stk =
-                                   bind (psem (MAnd a b)) (fun v => run r (push_operand v cur) stk)).
-    { intros r cur stk. cbn [toks paren Nat.ltb Nat.leb]. cbn [app run].
-      rewrite <- app_assoc. rewrite <- app_assoc. fold (toks 1 (MAnd a b)).
-      change (toks 1 a ++ toks 2 b ++ [TRP] ++ r) with (toks 1 a ++ toks 2 b ++ TRP :: r).
-      rewrite app_assoc. change (toks 1 a ++ toks 2 b) with (toks 1 (MAnd a b)).
-      rewrite L1 by (cbn; auto; discriminate).
-      destruct (psem (MAnd a b)) as [v|x]; cbn [bind]; reflexivity. }
-    split; [|split].
-    + intros r cur stk _. apply L2.
-    + exact L1.
-    + intros r cur stk Hi Hu Hc. rewrite toks_level_0_1 by discriminate.
-      rewrite L1 by (auto; rewrite Hc; discriminate).
-      destruct (psem (MAnd a b)) as [v|x] eqn:Ep; cbn [bind].
-      * exists None, v. unfold push_operand. rewrite Hi, Hu. split; [reflexivity|].
-        intros v' Hv'. now injection Hv' as <-.
-      * exists None, (ASurf 0 None). split; [reflexivity|]. discriminate.
-  - (* union *)
-    destruct IHa as (_ & _ & A0). destruct IHb as (_ & B1 & _).
-    assert (L0 : forall r cur stk, fi cur = None -> fu cur = None -> fc cur = false ->
-               exists u i, run (toks 0 (MOr a b) ++ r) cur stk =
-                           bind (psem (MOr a b)) (fun _ => run r (mkFrame (fk cur) u (Some i) false) stk) /\
-                           forall v, psem (MOr a b) = Ok v -> closed_as (mkFrame (fk cur) u (Some i) false) v).
-    { intros r cur stk Hi Hu Hc. cbn [toks paren Nat.ltb Nat.leb psem]. rewrite <- app_assoc.
-      destruct (A0 (TColon :: toks 1 b ++ r) cur stk Hi Hu Hc) as (u & i & Erun & Hcl).
-      cbn [app]. rewrite Erun.
-      destruct (psem a) as [va|x]; cbn [bind].
-      - specialize (Hcl va eq_refl). cbn [run]. unfold closed_as in Hcl. rewrite Hcl.
-        destruct (starts_hash b) eqn:Sh.
-        + (* complement right after the colon *)
-          exists None, (ASurf 0 None). split; [|discriminate].
-          rewrite <- toks1_hd in Sh.
-          destruct (toks 1 b) as [|t ts] eqn:Et; [discriminate|].
-          cbn [app]. destruct t; cbn in Sh; try discriminate; reflexivity.
-        + rewrite B1; [|reflexivity|intros _; now rewrite toks1_hd].
-          destruct (psem b) as [vb|x]; cbn [bind].
-          * exists (Some va), vb. split; [reflexivity|]. intros v Hv. now injection Hv as <-.
-          * exists None, (ASurf 0 None). split; [reflexivity|discriminate].
-      - exists None, (ASurf 0 None). split; [reflexivity|discriminate]. }
-    assert (L2 : forall r cur stk, run (toks 2 (MOr a b) ++ r) cur stk =
-                                   bind (psem (MOr a b)) (fun v => run r (push_operand v cur) stk)).
-    { intros r cur stk. cbn [toks paren Nat.ltb Nat.leb]. cbn [app run]. rewrite <- app_assoc.
-      change (toks 0 a ++ TColon :: toks 1 b) with (toks 0 (MOr a b)).
-      destruct (L0 ([TRP] ++ r) (new_frame KParen) (cur :: stk) eq_refl eq_refl eq_refl) as (u & i & Erun & Hcl).
-      rewrite Erun. destruct (psem (MOr a b)) as [v|x]; cbn [bind]; [|reflexivity].
-      specialize (Hcl v eq_refl). cbn [app run fk]. unfold closed_as in Hcl. rewrite Hcl. reflexivity. }
-    split; [|split].
-    + intros r cur stk _. apply L2.
-    + intros r cur stk _ _. change (toks 1 (MOr a b)) with (toks 2 (MOr a b)). apply L2.
-    + exact L0.
-  - (* #( e ) *)
-    destruct IHe as (_ & _ & E0).
-    assert (L2 : forall r cur stk, fc cur = false ->
-               run (toks 2 (MNot e) ++ r) cur stk =
-               bind (psem (MNot e)) (fun v => run r (push_operand v cur) stk)).
-    { intros r cur stk Hc. cbn [toks app run psem]. rewrite Hc. rewrite <- app_assoc.
-      destruct (E0 ([TRP] ++ r) (new_frame KHash) (cur :: stk) eq_refl eq_refl eq_refl) as (u & i & Erun & Hcl).
-      rewrite Erun. destruct (psem e) as [ve|x]; cbn [bind]; [|reflexivity].
-      specialize (Hcl ve eq_refl). cbn [app run fk]. unfold closed_as in Hcl. rewrite Hcl.
-      destruct (inverse ve); reflexivity. }
-    split; [|split].
-    + intros r cur stk Hh. apply L2. destruct (fc cur); [|reflexivity]. specialize (Hh eq_refl). discriminate.
-    + intros r cur stk _ Hh. apply L2. destruct (fc cur); [|reflexivity]. specialize (Hh eq_refl). discriminate.
-    + intros r cur stk Hi Hu Hc. change (toks 0 (MNot e)) with (toks 2 (MNot e)).
-      rewrite L2 by exact Hc.
-      destruct (psem (MNot e)) as [v|x]; cbn [bind].
-      * exists None, v. unfold push_operand. rewrite Hi, Hu. split; [reflexivity|].
-        intros v' Hv'. now injection Hv' as <-.
-      * exists None, (ASurf 0 None). split; [reflexivity|discriminate].
-  - (* #n *)
-    assert (L2 : forall r cur stk, fc cur = false ->
-               run (toks 2 (MNotCell n) ++ r) cur stk = run r (push_operand (ACompl n) cur) stk).
-    { intros r cur stk Hc. cbn [toks app run]. now rewrite Hc. }
-    split; [|split].
-    + intros r cur stk Hh. apply L2. destruct (fc cur); [|reflexivity]. specialize (Hh eq_refl). discriminate.
-    + intros r cur stk _ Hh. apply L2. destruct (fc cur); [|reflexivity]. specialize (Hh eq_refl). discriminate.
-    + intros r cur stk Hi Hu Hc. exists None, (ACompl n). change (toks 0 (MNotCell n)) with (toks 2 (MNotCell n)).
-      rewrite L2 by exact Hc. cbn [psem bind]. unfold push_operand. rewrite Hi, Hu. split; [reflexivity|].
-      intros v Hv. now injection Hv as <-.
-  - (* ( e ) *)
-    destruct IHp as (_ & _ & E0).
-    assert (L2 : forall r cur stk, run (toks 2 (MParen p) ++ r) cur stk =
-                                   bind (psem (MParen p)) (fun v => run r (push_operand v cur) stk)).
-    { intros r cur stk. cbn [toks app run psem]. rewrite <- app_assoc.
-      destruct (E0 ([TRP] ++ r) (new_frame KParen) (cur :: stk) eq_refl eq_refl eq_refl) as (u & i & Erun & Hcl).
-      rewrite Erun. destruct (psem p) as [v|x]; cbn [bind]; [|reflexivity].
-      specialize (Hcl v eq_refl). cbn [app run fk]. unfold closed_as in Hcl. rewrite Hcl. reflexivity. }
-    split; [|split].
-    + intros r cur stk _. apply L2.
-    + intros r cur stk _ _. change (toks 1 (MParen p)) with (toks 2 (MParen p)). apply L2.
-    + intros r cur stk Hi Hu Hc. change (toks 0 (MParen p)) with (toks 2 (MParen p)). rewrite L2.
-      destruct (psem (MParen p)) as [v|x]; cbn [bind].
-      * exists None, v. unfold push_operand. rewrite Hi, Hu. split; [reflexivity|].
-        intros v' Hv'. now injection Hv' as <-.
-      * exists None, (ASurf 0 None). split; [reflexivity|discriminate].
-Qed.
-
-(* parser o printer = psem, for EVERY expression *)
-Theorem parse_toks_psem e : parse_tokens (toks 0 e) = psem e.
-Proof.
-  destruct (run_toks_full e) as (_ & _ & L0).
-  destruct (L0 [] (new_frame KTop) [] eq_refl eq_refl eq_refl) as (u & i & Erun & Hcl).
-  unfold parse_tokens. rewrite <- (app_nil_r (toks 0 e)). rewrite Erun.
-  destruct (psem e) as [v|x]; cbn [bind]; [|reflexivity].
-  specialize (Hcl v eq_refl). cbn [run fk new_frame]. unfold closed_as in Hcl. cbn [fk new_frame] in Hcl.
-  now rewrite Hcl.
+  exists (MNot (MAnd (MLit (-2) None) (MNotCell 1))), "#(-2 #1)"%string.
+  repeat split; vm_compute; reflexivity.
 Qed.
 
 (* ---- which expressions are accepted, and the error otherwise ---- *)
-Definition accepted (e : mexpr) : bool := no_cell_under_not e && no_colon_hash e.
+Definition accepted (e : mexpr) : bool := no_cell_under_not e.
 
 Lemma cell_free_ncun e : cell_free e = true -> no_cell_under_not e = true.
 Proof.
@@ -606,7 +476,6 @@ Proof.
     destruct (psem b) as [vb|]; cbn [bind] in H; [|discriminate]. injection H as <-.
     cbn. now rewrite (IHa va eq_refl), (IHb vb eq_refl).
   - destruct (psem a) as [va|]; cbn [bind] in H; [|discriminate].
-    destruct (starts_hash b); [discriminate|].
     destruct (psem b) as [vb|]; cbn [bind] in H; [|discriminate]. injection H as <-.
     cbn. now rewrite (IHa va eq_refl), (IHb vb eq_refl).
   - destruct (psem e) as [ve|]; cbn [bind] in H; [|discriminate].
@@ -620,93 +489,70 @@ Qed.
 Lemma psem_ok_iff e : (exists v, psem e = Ok v) <-> accepted e = true.
 Proof.
   unfold accepted.
-  induction e as [z sub|a IHa b IHb|a IHa b IHb|e IHe|n|p IHp]; cbn [psem no_cell_under_not no_colon_hash].
+  induction e as [z sub|a IHa b IHb|a IHa b IHb|e IHe|n|p IHp]; cbn [psem no_cell_under_not].
   - split; [reflexivity|]. intros _. eexists. reflexivity.
   - split.
     + intros [v H]. destruct (psem a) as [va|]; cbn [bind] in H; [|discriminate].
       destruct (psem b) as [vb|]; cbn [bind] in H; [|discriminate].
       destruct IHa as [IHa _]. destruct IHb as [IHb _].
-      specialize (IHa (ex_intro _ va eq_refl)). specialize (IHb (ex_intro _ vb eq_refl)).
-      apply andb_prop in IHa. apply andb_prop in IHb. destruct IHa as [-> ->]. now destruct IHb as [-> ->].
-    + intros H. apply andb_prop in H. destruct H as [H1 H2].
-      apply andb_prop in H1. apply andb_prop in H2. destruct H1 as [A1 B1]. destruct H2 as [A2 B2].
+      now rewrite (IHa (ex_intro _ va eq_refl)), (IHb (ex_intro _ vb eq_refl)).
+    + intros H. apply andb_prop in H. destruct H as [A1 B1].
       destruct IHa as [_ IHa]. destruct IHb as [_ IHb].
-      destruct IHa as [va Ea]; [now rewrite A1, A2|]. destruct IHb as [vb Eb]; [now rewrite B1, B2|].
+      destruct (IHa A1) as [va Ea]. destruct (IHb B1) as [vb Eb].
       rewrite Ea, Eb. eexists. reflexivity.
   - split.
     + intros [v H]. destruct (psem a) as [va|]; cbn [bind] in H; [|discriminate].
-      destruct (starts_hash b) eqn:Sh; [discriminate|].
       destruct (psem b) as [vb|]; cbn [bind] in H; [|discriminate].
       destruct IHa as [IHa _]. destruct IHb as [IHb _].
-      specialize (IHa (ex_intro _ va eq_refl)). specialize (IHb (ex_intro _ vb eq_refl)).
-      apply andb_prop in IHa. apply andb_prop in IHb. destruct IHa as [-> ->]. now destruct IHb as [-> ->].
-    + intros H. apply andb_prop in H. destruct H as [H1 H2].
-      apply andb_prop in H1. apply andb_prop in H2. destruct H1 as [A1 B1]. destruct H2 as [H2 Sh].
-      apply andb_prop in H2. destruct H2 as [A2 B2]. apply negb_true_iff in Sh.
+      now rewrite (IHa (ex_intro _ va eq_refl)), (IHb (ex_intro _ vb eq_refl)).
+    + intros H. apply andb_prop in H. destruct H as [A1 B1].
       destruct IHa as [_ IHa]. destruct IHb as [_ IHb].
-      destruct IHa as [va Ea]; [now rewrite A1, A2|]. destruct IHb as [vb Eb]; [now rewrite B1, B2|].
-      rewrite Ea, Sh, Eb. eexists. reflexivity.
+      destruct (IHa A1) as [va Ea]. destruct (IHb B1) as [vb Eb].
+      rewrite Ea, Eb. eexists. reflexivity.
   - split.
     + intros [v H]. destruct (psem e) as [ve|] eqn:Ee; cbn [bind] in H; [|discriminate].
-      destruct IHe as [IHe _]. specialize (IHe (ex_intro _ ve eq_refl)).
-      apply andb_prop in IHe. destruct IHe as [_ ->]. rewrite andb_true_r.
       rewrite <- (psem_plain e ve Ee). destruct (a_plain ve) eqn:P; [reflexivity|].
       rewrite (inverse_not_plain ve P) in H. discriminate.
-    + intros H. apply andb_prop in H. destruct H as [Hc Hg].
-      destruct IHe as [_ IHe]. destruct IHe as [ve Ee]; [now rewrite (cell_free_ncun e Hc), Hg|].
+    + intros Hc. destruct IHe as [_ IHe]. destruct (IHe (cell_free_ncun e Hc)) as [ve Ee].
       rewrite Ee. cbn [bind]. assert (P : a_plain ve = true) by (now rewrite (psem_plain e ve Ee)).
       destruct (inverse_plain ve P) as (v' & Ei & _). exists v'. exact Ei.
   - split; [reflexivity|]. intros _. eexists. reflexivity.
   - exact IHp.
 Qed.
 
-Lemma psem_err_class e : forall x, psem e = Err x ->
-  (x = EParse /\ no_colon_hash e = false) \/ (x = EAttribute /\ no_cell_under_not e = false).
+(* the only error is AttributeError, and only for a #n below a #( ) *)
+Lemma psem_err_class e : forall x, psem e = Err x -> x = EAttribute /\ no_cell_under_not e = false.
 Proof.
-  induction e as [z sub|a IHa b IHb|a IHa b IHb|e IHe|n|p IHp]; cbn [psem no_cell_under_not no_colon_hash]; intros x H.
+  induction e as [z sub|a IHa b IHb|a IHa b IHb|e IHe|n|p IHp]; cbn [psem no_cell_under_not]; intros x H.
   - discriminate.
   - destruct (psem a) as [va|xa]; cbn [bind] in H.
     + destruct (psem b) as [vb|xb]; cbn [bind] in H; [discriminate|]. injection H as ->.
-      destruct (IHb x eq_refl) as [[-> Hb]|[-> Hb]]; [left|right]; split; auto; rewrite Hb; apply andb_false_r.
-    + injection H as ->.
-      destruct (IHa x eq_refl) as [[-> Ha]|[-> Ha]]; [left|right]; split; auto; now rewrite Ha.
+      destruct (IHb x eq_refl) as [-> Hb]. split; auto. rewrite Hb. apply andb_false_r.
+    + injection H as ->. destruct (IHa x eq_refl) as [-> Ha]. split; auto. now rewrite Ha.
   - destruct (psem a) as [va|xa]; cbn [bind] in H.
-    + destruct (starts_hash b) eqn:Sh.
-      * injection H as <-. left. split; [reflexivity|]. cbn. apply andb_false_r.
-      * destruct (psem b) as [vb|xb]; cbn [bind] in H; [discriminate|]. injection H as ->.
-        destruct (IHb x eq_refl) as [[-> Hb]|[-> Hb]]; [left|right]; split; auto; rewrite Hb;
-          rewrite ?andb_false_r; reflexivity.
-    + injection H as ->.
-      destruct (IHa x eq_refl) as [[-> Ha]|[-> Ha]]; [left|right]; split; auto; now rewrite Ha.
+    + destruct (psem b) as [vb|xb]; cbn [bind] in H; [discriminate|]. injection H as ->.
+      destruct (IHb x eq_refl) as [-> Hb]. split; auto. rewrite Hb. apply andb_false_r.
+    + injection H as ->. destruct (IHa x eq_refl) as [-> Ha]. split; auto. now rewrite Ha.
   - destruct (psem e) as [ve|xe] eqn:Ee; cbn [bind] in H.
-    + right. destruct (a_plain ve) eqn:P.
+    + destruct (a_plain ve) eqn:P.
       * destruct (inverse_plain ve P) as (v' & Ei & _). rewrite Ei in H. discriminate.
       * rewrite (inverse_not_plain ve P) in H. injection H as <-. split; [reflexivity|].
         now rewrite <- (psem_plain e ve Ee).
-    + injection H as ->. destruct (IHe x eq_refl) as [[-> He]|[-> He]]; [left; auto|right].
+    + injection H as ->. destruct (IHe x eq_refl) as [-> He].
       split; [reflexivity|]. destruct (cell_free e) eqn:C; [|reflexivity].
       now rewrite (cell_free_ncun e C) in He.
   - discriminate.
   - now apply IHp.
 Qed.
 
-(* the two defect classes in isolation *)
-Theorem nested_rejected e : no_colon_hash e = true -> no_cell_under_not e = false ->
+(* the defect class: every such expression raises AttributeError *)
+Theorem nested_rejected e : no_cell_under_not e = false ->
   parse_tokens (toks 0 e) = Err EAttribute.
 Proof.
-  intros Hg Hc. rewrite parse_toks_psem. destruct (psem e) as [v|x] eqn:E.
+  intros Hc. rewrite parse_toks_psem. destruct (psem e) as [v|x] eqn:E.
   - destruct (psem_ok_iff e) as [H _]. specialize (H (ex_intro _ v E)). unfold accepted in H.
     rewrite Hc in H. discriminate.
-  - destruct (psem_err_class e x E) as [[-> H]|[-> H]]; [congruence|reflexivity].
-Qed.
-
-Theorem colon_hash_rejected e : no_cell_under_not e = true -> no_colon_hash e = false ->
-  parse_tokens (toks 0 e) = Err EParse.
-Proof.
-  intros Hc Hg. rewrite parse_toks_psem. destruct (psem e) as [v|x] eqn:E.
-  - destruct (psem_ok_iff e) as [H _]. specialize (H (ex_intro _ v E)). unfold accepted in H.
-    rewrite Hg, andb_false_r in H. discriminate.
-  - destruct (psem_err_class e x E) as [[-> H]|[-> H]]; [reflexivity|congruence].
+  - now destruct (psem_err_class e x E) as [-> _].
 Qed.
 
 Theorem accepted_iff e : (exists a, parse_tokens (toks 0 e) = Ok a) <-> accepted e = true.
